@@ -11,6 +11,7 @@ MAY_PANIC = [
     "Vec::drain", "Vec::split_off", "Vec::truncate_front", "slice::chunks", "slice::windows", "slice::swap", "slice::rotate",
     "Iterator::step_by", "RefCell::borrow", "String::insert", "String::remove", "String::drain", "char::from_digit",
     "Duration::", "process::exit", "process::abort", "unreachable_unchecked", "mem::transmute", "mem::zeroed", "ptr::read", "ptr::write",
+    "Vec::with_capacity", "String::with_capacity", "Vec::reserve", "Vec::reserve_exact", "String::reserve", "VecDeque::with_capacity",
     "Iterator::sum", "Iterator::product", "num::pow", "num::abs", "num::neg", "ops::Neg::neg", "ops::Div::div", "ops::Rem::rem",
     "from_utf8_unchecked", "get_unchecked", "Vec::from_raw_parts", "Vec::set_len", "alloc::alloc",
 ]
@@ -35,7 +36,7 @@ NO_PANIC = [
     "std::result::Result::map_err", "std::result::Result::map", "std::result::Result::ok", "std::result::Result::is_ok", "std::result::Result::is_err",
     "std::slice::ChunksExact::remainder", "std::slice::join", "std::str::from_utf8", "std::string::String::is_empty", "std::string::String::new",
     "std::string::String::push_str", "std::string::String::len", "std::string::ToString::to_string", "std::vec::Vec::append",
-    "std::vec::Vec::is_empty", "std::vec::Vec::len", "std::vec::Vec::new", "std::vec::Vec::push", "std::vec::Vec::pop", "std::vec::Vec::with_capacity",
+    "std::vec::Vec::is_empty", "std::vec::Vec::len", "std::vec::Vec::new", "std::vec::Vec::push", "std::vec::Vec::pop",
     "std::vec::Vec::first", "std::vec::Vec::last", "std::vec::partial_eq::", "std::clone::Clone::clone", "std::default::Default::default",
     "std::borrow::ToOwned::to_owned", "std::fmt::Formatter::write_str", "std::fmt::Formatter::write_fmt", "std::fmt::Formatter::debug_tuple",
     "std::fmt::Formatter::debug_struct", "std::fmt::Display::fmt", "std::fmt::Debug::fmt", "std::fmt::Write::write_fmt", "std::fmt::Write::write_str",
@@ -75,13 +76,13 @@ NO_PANIC += ["std::option::Option::replace", "std::option::Option::insert", "std
              "std::result::Result::is_err_and", "std::result::Result::inspect", "std::result::Result::inspect_err", "std::result::Result::copied", "std::result::Result::cloned",
              "core::bool::then_some",
              "std::vec::Vec::extend_from_slice", "std::vec::Vec::clear", "std::vec::Vec::truncate", "std::vec::Vec::capacity", "std::vec::Vec::iter_mut",
-             "std::vec::Vec::as_mut_slice", "std::vec::Vec::retain", "std::vec::Vec::dedup", "std::vec::Vec::reserve", "std::vec::Vec::shrink_to_fit",
+             "std::vec::Vec::as_mut_slice", "std::vec::Vec::retain", "std::vec::Vec::dedup", "std::vec::Vec::shrink_to_fit",
              "std::vec::Vec::contains", "std::vec::Vec::from", "std::vec::Vec::to_vec", "std::vec::from_elem", "std::vec::Vec::extend", "std::vec::Vec::get",
              "std::vec::Vec::get_mut", "std::vec::Vec::first_mut", "std::vec::Vec::last_mut", "std::vec::Vec::resize", "std::vec::Vec::into_boxed_slice",
              "core::slice::contains", "core::slice::to_vec", "core::slice::starts_with", "core::slice::ends_with", "core::slice::split_first",
              "core::slice::split_last", "core::slice::get_mut", "core::slice::first_mut", "core::slice::last_mut", "core::slice::binary_search",
              "core::slice::concat", "core::slice::iter::", "core::slice::chunks_exact::", "std::slice::Iter::", "std::slice::IterMut::", "std::slice::ChunksExact::",
-             "std::string::String::push", "std::string::String::from", "std::string::String::with_capacity", "std::string::String::clear",
+             "std::string::String::push", "std::string::String::from", "std::string::String::clear",
              "std::string::String::from_utf8", "std::string::String::from_utf8_lossy", "std::string::String::extend", "std::string::String::into_bytes",
              "core::str::starts_with", "core::str::ends_with", "core::str::contains", "core::str::find", "core::str::chars", "core::str::bytes",
              "core::str::trim", "core::str::to_owned", "core::str::to_string", "core::str::to_lowercase", "core::str::to_uppercase", "core::str::parse",
@@ -100,7 +101,7 @@ NO_PANIC += ["std::option::Option::replace", "std::option::Option::insert", "std
              "std::iter::adapters::", "core::iter::adapters::", "core::iter::traits::", "std::iter::range::", "core::ops::range::", "std::ops::Range::",
              "std::ops::RangeInclusive::", "std::ops::RangeBounds::", "std::ops::Not::not", "std::ops::BitOr::bitor", "std::ops::BitAnd::bitand",
              "std::ops::BitXor::bitxor", "std::ops::BitOrAssign::", "std::ops::BitAndAssign::", "std::ops::BitXorAssign::",
-             "std::collections::HashMap::default", "std::collections::HashMap::with_capacity", "std::collections::HashMap::get_mut",
+             "std::collections::HashMap::default", "std::collections::HashMap::get_mut",
              "std::collections::HashMap::remove", "std::collections::HashMap::entry", "std::collections::HashMap::len", "std::collections::HashMap::is_empty",
              "std::collections::HashMap::iter", "std::collections::HashMap::keys", "std::collections::HashMap::values", "std::collections::HashMap::clear",
              "std::collections::HashSet::", "std::collections::BTreeMap::", "std::collections::BTreeSet::", "std::collections::VecDeque::new",
